@@ -40,6 +40,10 @@ fn elf_flags_to_prot(flags: u32) -> u32 {
     proc_flags
 }
 
+/// Upper limit for the size of a single segment in memory. The size comes straight from the file,
+/// so it must be checked before memory for the segment is allocated.
+const MAX_SEGMENT_MEMORY_SIZE: u64 = 0x1000_0000;
+
 fn round_up_to_page_size(size: u64) -> u64 {
     (size + 0xfff) & !0xfff
 }
@@ -187,6 +191,13 @@ impl Axecutor {
                         segment.p_memsz,
                         segment.p_offset,
                     );
+
+                    if segment.p_memsz > MAX_SEGMENT_MEMORY_SIZE {
+                        return Err(AxError::from(format!(
+                            "ELF: segment at {:#x} has a memory size of {:#x} bytes, the maximum is {:#x}",
+                            segment.p_vaddr, segment.p_memsz, MAX_SEGMENT_MEMORY_SIZE
+                        )));
+                    }
 
                     // The area ends at the end of the segment's last page, so that a segment with an
                     // unaligned start address doesn't spill into the page after it
